@@ -3,7 +3,7 @@ CONSTANTS
   Mode = "sample"
   MaxLocal = 3
   MaxRemote = 4
-  NSample = 8000
+  NSample = 6000
   Emit = TRUE
 INIT Init
 NEXT Next
